@@ -37,6 +37,8 @@ def make(case, mod, keep=None):
     kw = {} if mod is None else {"mod": mod}
     if init == "default":
         return C(ka, **kw)
+    if isinstance(init, float):
+        return C(ka, init, value_dtype=float, **kw)        # a fractional common start value (the counter is told to count in floats)
     if isinstance(init, list):
         arr = np.array(init, dtype=np.uint64) if any(isinstance(v, int) and v >= 2 ** 63 for v in init) else np.array(init)
         if keep is not None:
@@ -178,7 +180,7 @@ def gen_history(rng, tier, kd="pick", init=None, mod="pick", nb=None):
     mod2 = pick_mod()
     if mod2 == mod:
         mod2 = 5 if (mod != 5 and hi >= 5) else None
-    init = init or rng.choice(["default", 0, 4, "array"])
+    init = init or rng.choice(["default", 0, 4, "array", 2.5])
     if init == "array":
         u = rng.random()
         if u < 0.7:
@@ -295,10 +297,10 @@ def directed():
                    "batches": [{"kind": "onlykeys", "samples": keys_[:50]}, {"kind": "mixed", "samples": [keys_[31], keys_[31], 5, keys_[31], keys_[7], keys_[31], keys_[7]]},
                                {"kind": "heavy", "samples": [keys_[100]] * 6 + [keys_[4000]] * 2}]}
     # one call with more samples than any internal chunk size (formula-generated; 100001 and 250001 are not multiples of 100000)
-    for n_ in (100001, 250001, 65536, 131072, 65535, 65537):        # also exactly on / next to a power-of-two block size
+    for n_ in (100001, 250001, 65536, 131072, 65535, 65537, 2 ** 20 + 7):        # also exactly on / next to a power-of-two block size
         for init in ("default", [2, 0, 1, 5, 0]):
             yield {"keys": [3, 7, 11, 20, 41], "kdtype": "int64", "mod": None, "mod2": 3, "init": init, "perm": [], "cuts": [1000, 100000, 100001],
-                   "batches": [{"kind": "huge", "gen": {"n": n_, "mult": 3, "extra": [5, 99, -4]}}]}
+                   "batches": [{"kind": "huge", "gen": {"n": n_, "mult": 3, "extra": [5, 99, -4] if n_ < 2 ** 20 else []}}]}
     # a narrow key dtype, values already materialised, then one key more often than that dtype can count
     for kd_, reps in (("int8", 128), ("uint8", 256), ("int8", 300), ("int16", 200)):
         for init in ("default", [1, 2, 3]):
